@@ -204,10 +204,10 @@ macro_rules! try_from_value_unit {
             let r = <$ty>::try_from(v);
             let ok = r.is_ok();
             core::mem::forget(r);
-            // two clauses, so that the recorded finding about unvalidated conversions cannot mask a rejected valid name
-            if want { obl!($o_valid, ok); } else { obl!($o_invalid, !ok); }
             kani::cover!(ok && want, "cover.valid_accepted");
             kani::cover!(!want, "cover.invalid_input_reachable");
+            // two clauses, so that the recorded finding about unvalidated conversions cannot mask a rejected valid name
+            if want { obl!($o_valid, ok); } else { obl!($o_invalid, !ok); }
         }
     };
 }
